@@ -217,12 +217,17 @@ class SplineObject(object):
         if self.rational:
             if sum(derivs) > 1:
                 raise RuntimeError('Rational derivative not implemented for order %i' % sum(derivs))
-            Ns = [b.evaluate(p) for b, p in zip(self.bases, params)]
-            non_derivative = evaluate(Ns, self.controlpoints, tensor)
-            W = non_derivative[..., -1]  # W
-            Wd = result[..., -1]         # W'
-            for i in range(self.dimension):
-                result[..., i] = result[..., i] / W - non_derivative[..., i] * Wd / W / W
+            if sum(derivs) == 0:
+                # zeroth derivative: just the projected point (from the requested side)
+                for i in range(self.dimension):
+                    result[..., i] /= result[..., -1]
+            else:
+                Ns = [b.evaluate(p, 0, from_right) for b, p, from_right in zip(self.bases, params, above)]
+                non_derivative = evaluate(Ns, self.controlpoints, tensor)
+                W = non_derivative[..., -1]  # W
+                Wd = result[..., -1]         # W'
+                for i in range(self.dimension):
+                    result[..., i] = result[..., i] / W - non_derivative[..., i] * Wd / W / W
             result = np.delete(result, self.dimension, -1)
 
         # Squeeze the singleton dimensions if we only have one point
